@@ -474,6 +474,11 @@ class Ranges:
             v = st.iv.get(o[1])
             if v is None and o[1].endswith("#len"):
                 v = LEN_TOP
+            if v is None:
+                # a plain local of integer type that nothing is known about yet: its type's range (an unsigned parameter is >= 0)
+                m_ = re.match(r"^(?:.*'|_)(\d+)$", o[1])
+                if m_ and int(m_.group(1)) < len(self.body.locals):
+                    v = ty_bounds(self.body.locals[int(m_.group(1))]["ty"])
             return v if v is not None else (-INF, INF)
 
         a, b = iv_of(A), iv_of(B)
@@ -972,6 +977,11 @@ class Ranges:
             val = (tr, tr) if tr is not None else (0, 1)
             if q:
                 org = ("cmp", "Eq", ("p", q), ("c", 0))
+        elif re.search(r"cmp::(impls::)?(<impl .*Ord for \w+>|Ord)::cmp$", cp) and len(t.args) == 2:
+            # `match a.cmp(&b) { Less => .., Equal => .., Greater => .. }`: the arm taken is a comparison of the two operands
+            qa, qb = argpath(0), argpath(1)
+            if qa and qb:
+                org = ("ord3", qa, qb)
         elif re.search(r"option::Option::(is_some|is_none)$", cp):
             q = argpath(0)
             cur = st.opt.get(q) if q else None
@@ -1396,6 +1406,9 @@ class Ranges:
             if nm is not None:
                 st.opt[o[1]] = nm
                 oo = st.org.get(o[1])
+                if oo is not None and oo[0] == "ord3" and nm in ("Less", "Equal", "Greater"):
+                    if not self.refine_cmp(st, {"Less": "Lt", "Equal": "Eq", "Greater": "Gt"}[nm], ("p", oo[1]), ("p", oo[2]), True):
+                        return False
                 if oo is not None and oo[0] == "optalias":
                     c2 = st.opt.get(oo[1])
                     if c2 is not None and c2 != nm:
